@@ -600,6 +600,13 @@ pub enum RunVerdict {
 /// `pending`: the long-name slots that directly precede the short entry (directory order).
 /// `strict_attr`: not used for classification here (the caller classifies slots); kept for symmetry.
 pub fn parse_run_backwards(pending: &[&Slot], short: &[u8; 11]) -> RunVerdict {
+    parse_run_backwards_with(pending, short, 0x3F, false)
+}
+
+/// `idx_mask`: which bits of the order byte form the index (the specification defines 0x40 = last and indices
+/// 1..20; bits 5 and 7 are undefined: 0x3F counts bit 5 into the index, 0x1F ignores it); `reject_bit7`: treat an
+/// order byte with bit 7 set as invalid.
+pub fn parse_run_backwards_with(pending: &[&Slot], short: &[u8; 11], idx_mask: u8, reject_bit7: bool) -> RunVerdict {
     if pending.is_empty() {
         return RunVerdict::None;
     }
@@ -610,7 +617,10 @@ pub fn parse_run_backwards(pending: &[&Slot], short: &[u8; 11]) -> RunVerdict {
     let mut complete = false;
     for s in pending.iter().rev() {
         let ord = s.raw[0];
-        let idx = ord & 0x3F;
+        let idx = ord & idx_mask;
+        if reject_bit7 && ord & 0x80 != 0 {
+            return RunVerdict::Broken("order byte with bit 7 set".into());
+        }
         if idx != expect {
             return RunVerdict::Broken(format!("index {} where {} expected", idx, expect));
         }
@@ -645,7 +655,17 @@ pub fn parse_run_backwards(pending: &[&Slot], short: &[u8; 11]) -> RunVerdict {
             }
             units[..p].to_vec()
         }
-        None => units.clone(),
+        None => {
+            // no terminator: legal only when the name fills its last slot; 0xFFFF is padding, never a character
+            if units.iter().any(|u| *u == 0xFFFF) {
+                well_padded = false;
+            }
+            let mut n = units.clone();
+            while n.last() == Some(&0xFFFF) {
+                n.pop();
+            }
+            n
+        }
     };
     if name.is_empty() {
         return RunVerdict::Broken("empty long name".into());
